@@ -170,6 +170,10 @@ class BaseBatch(abc.ABC):
             if response_map and self._client.strict:
                 raise exceptions.IdentityError(f"unexpected response found: {response_map.keys()}")
 
+            # results are read by position: put the responses in the order the calls were made
+            positions = {id(request): position for position, request in enumerate(batch_request)}
+            batch_response._responses.sort(key=lambda response: positions.get(id(response.related), len(positions)))
+
 
 class Batch(BaseBatch):
     """
